@@ -988,7 +988,11 @@ def run_property(prop, tier, seed):
         names = subjects_where(cat, lambda e: e["caps"]["push_item"])
         region_stage(out, "into-owned", prop, names, 2, 3, 0, 4 if q else 5, ["push", "push_from"],
                      queries=["clone_onto", "borrow"])
-        huffman_random_stage(out, q, seed, lambda e: e["why"] == "clone-onto-differs", "huffman-clone-onto")
+        # Huffman items: clone_onto onto empty / shorter / longer targets; and containers that were fed read items of
+        # other (raw or coded) containers must hand the same symbols back (region-to-region push yields an equal item)
+        huffman_random_stage(out, q, seed, lambda e: e["why"] == "clone-onto-differs" or
+                             (e.get("wrapped", False) and e["why"] in ("read-differs", "read-failed", "push-panicked")),
+                             "huffman-clone-onto")
     elif prop == "C15":
         names = subjects_where(cat, lambda e: e["caps"]["cmp"])
         region_stage(out, "cmp", prop, names, 2, 3, 0, 5, ["push"], queries=["cmp"])
